@@ -983,7 +983,8 @@ def self_field_assign_blocks(fn, adt_path, include_mut_borrows=False):
     return out
 
 
-WRITER_SINKS = r"Hasher::update$|Vec.*::extend_from_slice$|Vec.*::push$|::push_\w+$|::update_len_prefixed$|::write_\w+$|::put_\w+$|::extend$|String::push_str$"
+WRITER_SINKS = (r"Hasher::update$|Vec.*::extend_from_slice$|Vec.*::push$|::push_\w+$|::update_len_prefixed$|::write_\w+$|::put_\w+$|::extend$|String::push_str$|"
+                r"::copy_from_slice$|::clone_from_slice$|::\w*_value$|::to_value$|encode_canonical_cbor_v1$|canonical::encode_value$|::encode_cbor$|BTreeMap.*::insert$|::hash_len_prefixed$")
 
 
 def writer_coverage(prog, fn, adt_path, sink_pat=WRITER_SINKS, control=True):
@@ -1042,7 +1043,6 @@ def near_origins(fn, operand, max_nodes=400):
                 rv = d[4]
                 if rv["r"] == "agg" and rv.get("ak") == "adt":
                     out.add(("agg", rv.get("adt"), d[1]))
-                    continue
                 for o2 in operands_of_rvalue(rv):
                     stack.append(o2)
                 if "p" in rv:
